@@ -227,6 +227,17 @@ pub fn check(s: &'static dyn Proto, c: &Case, st: &mut Stats, _k: &KnownFindings
     cands.push(("F6a".into(), f6a.clone()));
     cands.push(("all-zero".into(), vec![0u8; nh]));
     cands.push(("all-ff".into(), vec![0xffu8; nh]));
+    // reflection: the server's own MAC (and every other Nh-byte window an eavesdropper sees at a
+    // field boundary of a response) sent back as the finalization
+    for (rname, resp) in [("S1", &l1.resp), ("S2-fake", &l2.resp), ("S3-wrongpw", &l3.resp), ("S6a", &resp6a), ("S6b", &resp6b)] {
+        let w = s.ser(Codec::Native, resp);
+        for f in crate::fieldmap::fields(&m, Ty::CredResp) {
+            if f.len >= nh {
+                cands.push((format!("reflect:{rname}.{}[..Nh]", f.name), w[f.off..f.off + nh].to_vec()));
+                cands.push((format!("reflect:{rname}.{}[-Nh..]", f.name), w[f.off + f.len - nh..f.off + f.len].to_vec()));
+            }
+        }
+    }
     // finalizations anybody can compute without any secret: MAC / hash of constant strings
     {
         use crate::refmodel as rm;
